@@ -11,13 +11,15 @@ b)`` tries ``a.dot(b)`` first and then ``b.rdot(a)``. This is equivalent to for
 example ``a + b`` trying ``a.__add__(b)`` first and then ``b.__radd__(a)``.
 """
 
+from nengo_spa.typechecks import is_array
+
 
 def dot(a, b):
     """Dot-product between *a* and *b*."""
     result = NotImplemented
-    if hasattr(a, "dot"):
+    if hasattr(a, "dot") and not is_array(a):
         result = a.dot(b)
-    if result is NotImplemented and hasattr(b, "dot"):
+    if result is NotImplemented and hasattr(b, "rdot"):
         result = b.rdot(a)
     if result is NotImplemented:
         raise TypeError(
